@@ -326,13 +326,15 @@ func c05sJudge(sid uint32, st c05sStep, addr string, data []byte, calls []c05sCa
 			L := st.Resp[0][1]
 			size := wholeMsg.Size()
 			budget := L - wholeMsg.HeaderSize()
-			fits := size <= blen && (size <= L || (budget > 0 && len(data) <= 255*budget))
-			if fits && len(emits) != 1 {
+			fitsLimit := size <= L || (budget > 0 && len(data) <= 255*budget)
+			// (a message larger than the sender's buffer is silently dropped by the code as it is; delivering it
+			// intact would not break the property, so only the model comparison pins that case)
+			if size <= blen && fitsLimit && len(emits) != 1 {
 				fail(2, "message of "+strconv.Itoa(size)+" bytes that fits the limit "+strconv.Itoa(L)+
 					" (whole or in <= 255 fragments) was not delivered to the far side")
 			}
-			if !fits && len(emits) != 0 {
-				fail(2, "message that cannot fit was delivered")
+			if !fitsLimit && len(emits) != 0 {
+				fail(2, "message that cannot fit the limit in <= 255 fragments was delivered")
 			}
 		}
 	}
